@@ -96,7 +96,7 @@ m("m07d", "C07", "skepticoin/datatypes.py", "        cached_hash = sha256d(f.rea
   "cached id wrong for transactions with more than 3 outputs")
 # ---- C08
 BS = "skepticoin/blockstore.py"
-m("m08a", "C08", BS, "                   from chain order by height\"\"\"", "                   from chain order by timestamp\"\"\"", "rows ordered by timestamp")
+m("m08a", "C08", BS, "                   from chain order by height\"\"\"", "                   from chain order by nonce\"\"\"", "rows ordered by nonce")
 m("m08b", "C08", BS, "                        output.value,\n", "                        output.value % (1 << 32),\n", "values stored modulo 2^32")
 m("m08c", "C08", BS, "                            [v for k, v in sorted(builder.inputs.items(), key=lambda i: i[0])],", "                            [v for k, v in sorted(builder.inputs.items(), key=lambda i: -i[0])],",
   "inputs come back in reverse order")
@@ -165,7 +165,7 @@ m("m17b", "C17", MT, "        else:  # implied: len(chunk) == 1\n            new
 # ---- C18
 m("m18a", "C18", CONS, "            if block.hash() != computer(KNOWN_HASHES[block.height]):", "            if block.hash() != computer(KNOWN_HASHES[block.height]) and block.height % 1000:", "every second checkpoint not enforced")
 m("m18b", "C18", CONS, "    if block.height <= MAX_KNOWN_HASH_HEIGHT:", "    if block.height < MAX_KNOWN_HASH_HEIGHT:", "horizon height itself escapes the checkpoint")
-m("m18c", "C18", "skepticoin/cheating.py", "    163000  : '0004ffae52a8f42088d3ccc24f0f04b11489666329c0d6321ebaf0c3b9cd5140',", "    163000  : '0004ffae52a8f42088d3ccc24f0f04b11489666329c0d6321ebaf0c3b9cd5141',", "one checkpoint altered")
+m("m18c", "C18", "skepticoin/cheating.py", "    500     : '00786517cfdd81bbab75cc7d9ca738038cab005b0e0a6205b2aa07bfa917db25',", "    500     : '00786517cfdd81bbab75cc7d9ca738038cab005b0e0a6205b2aa07bfa917db26',", "one checkpoint altered")
 m("m18d", "C18", "skepticoin/hash.py", "N=1 << 15, r=8, p=1, buflen=32", "N=1 << 15, r=8, p=2, buflen=32", "scrypt parameter changed")
 # ---- C19
 m("m19a", "C19", MG, "        if key in self.disconnected_peers:\n            del self.disconnected_peers[key]\n        self._sanity_check()", "        self._sanity_check() if False else None", "connected peer stays in the disconnected map")
